@@ -63,6 +63,15 @@ BigCases == { [group |-> "big", ty |-> p[1], facet |-> "none", lit |-> p[2], val
    <<"UnsignedInteger64", "18446744073709551615", TRUE>>, <<"UnsignedInteger64", "18446744073709551616", FALSE>>,
    <<"UnsignedInteger64", "-1", FALSE>>, <<"UnsignedInteger32", "-1", FALSE>>, <<"Integer", "123456789012345678901234567890", TRUE>> } }
 
+\* decimals with more significant digits than any fixed working precision, a hair away from a bound: the literal is the value
+\* (xs:decimal has no precision limit; nothing may round it before it is compared)
+DecBoundCases == { [group |-> "decbound", ty |-> "Decimal", facet |-> p[1], lit |-> p[2], valid |-> p[3]] : p \in {
+   <<"le10_5", "10.50000000000000000000000000000000001", FALSE>>, <<"le10_5", "10.49999999999999999999999999999999999", TRUE>>,
+   <<"le10_5", "10.5", TRUE>>, <<"lt1", "0.99999999999999999999999999999999", TRUE>>, <<"lt1", "1.00000000000000000000000000000000", FALSE>>,
+   <<"ge10_5", "10.49999999999999999999999999999999999", FALSE>>, <<"ge10_5", "10.50000000000000000000000000000000001", TRUE>>,
+   <<"gt1", "1.00000000000000000000000000000001", TRUE>>, <<"gt1", "1.0000000000000000000000000000000", FALSE>>,
+   <<"le10_5", "123456789012345678901234567890123456789.5", FALSE>>, <<"ge10_5", "123456789012345678901234567890123456789.5", TRUE>> } }
+
 \* ------------------------------------------------------------------- strings
 \* probes carry their length and whether they are in the language of the pattern a+b (whole string)
 StrProbes == { [t |-> "", len |-> 0, lang |-> FALSE], [t |-> "a", len |-> 1, lang |-> FALSE], [t |-> "b", len |-> 1, lang |-> FALSE],
@@ -169,7 +178,7 @@ OutCases == {[group |-> "out", ty |-> "ByteArray", facet |-> e, bytes |-> b, lit
 DateCasesMore == {[group |-> "date", ty |-> "DateTime", facet |-> f, delta |-> d, off |-> o, valid |-> ValidDate(f, d)] :
                    f \in DateFacets, d \in ((0 - 61)..61) \cup {0 - 90, 90, 0 - 720, 720}, o \in {0, 60, 0 - 60, 330, 0 - 570, 840}}
 CasesMore == NumCasesMore \cup DateCasesMore
-Cases == ObjArrCases \cup NumCases \cup BigCases \cup StrCases \cup EnumCases \cup OccCases \cup NilCases \cup DateCases \cup ZoneCases \cup TimeCases \cup InhCases \cup SubNameCases \cup AttrReqCases \cup LexCases
+Cases == ObjArrCases \cup NumCases \cup BigCases \cup DecBoundCases \cup StrCases \cup EnumCases \cup OccCases \cup NilCases \cup DateCases \cup ZoneCases \cup TimeCases \cup InhCases \cup SubNameCases \cup AttrReqCases \cup LexCases
 
 \* ---- laws of the table (anti-vacuity): every facet is effective - some probe is rejected by it
 \* alone - and admits something
